@@ -482,6 +482,12 @@ func verifrand() uint64 {
 	sub("runtime/proc.go", [][2]string{
 		{"const forcePreemptNS = 10 * 1000 * 1000 // 10ms", "const forcePreemptNS = 1 << 60 // verif: never"},
 	})
+	// synctest orders fake timers that fire at the same instant by a per-timer random value (cheaprand): owned by
+	// the seed like the other coins (found late: a save's context deadline and gocbcore's per-request timers share
+	// one instant, and which of them runs first decides the error a timed-out save reports)
+	sub("runtime/time.go", [][2]string{
+		{"t.rand = cheaprand()", "t.rand = uint32(verifrand()) // verif"},
+	})
 	sub("runtime/select.go", [][2]string{
 		{"j := cheaprandn(uint32(norder + 1))", "j := uint32((uint64(uint32(verifrand())) * uint64(uint32(norder+1))) >> 32) // verif"},
 	})
